@@ -3,5 +3,5 @@
 patch="$1"; prop="$2"; shift 2
 git -C /repo apply "$patch" || { echo "APPLY-FAILED $patch"; exit 9; }
 trap 'git -C /repo checkout -- . ' EXIT
-cd /verif && ./check "$prop" --tier quick "$@" 2>&1 | grep -E "^(VIOLATION|KNOWN|UNDECIDED|OUT-OF-REACH|SUMMARY|CHECKER|MISSING)" | cut -c1-330
+cd /verif && PYVC_EVIDENCE_DIR=.run/evidence_mut ./check "$prop" --tier quick "$@" 2>&1 | grep -E "^(VIOLATION|KNOWN|UNDECIDED|OUT-OF-REACH|SUMMARY|CHECKER|MISSING)" | cut -c1-330
 echo "exit=${PIPESTATUS[0]}"
